@@ -134,6 +134,17 @@ def run_property(prop, spec, tier, seed=0, tus=None, quiet=False):
             AGGREGATES[rn](exports, M, tier)
     for fn in spec.get('static', []):
         fn(M, tier)
+    # honesty note: code that only other compilers see is not analysed by the clang front end
+    try:
+        import re, glob
+        blind = []
+        for p in glob.glob(os.path.join(corpus_mod.REPO, 'include', 'boost', 'msm', '**', '*.hpp'), recursive=True):
+            if '/front/euml/' in p: continue
+            for ln, line in enumerate(open(p, errors='replace'), 1):
+                if re.match(r'\s*#\s*if.*__clang__', line): blind.append('%s:%d' % (p.split('/include/')[1], ln))
+        if blind: M.note('compiler-conditional regions whose non-clang branch is not analysed: ' + ', '.join(sorted(blind)))
+    except Exception:
+        pass
     take = spec.get('take')
     if take is not None:
         take = set(take)
